@@ -136,10 +136,12 @@ def d1(ctx, rep):
     st = stmt_of(split[0]) if split else None
     ok = bool(split) and split[0].args and isinstance(split[0].args[0], ast.Name) and split[0].args[0].id == xp \
         and isinstance(st, ast.Assign) and isinstance(st.targets[0], ast.Tuple) and len(st.targets[0].elts) == 2
-    rep.check('D1.path', fn, st if st is not None else fn.node.name, bool(ok) and dominates_exit(split[0])[0],
-              'U, V = split_matrix(X) on every path', 'the two columns are not taken from X by split_matrix on every path', construct='split_matrix')
     if not ok:
+        rep.undecided('D1.path', fn, st if st is not None else fn.node.name, 'the form `U, V = split_matrix(X)` was not found in fit: which values are '
+                      'range-checked and correlated is not derived', construct='split_matrix')
         return
+    rep.check('D1.path', fn, st, dominates_exit(split[0])[0],
+              'U, V = split_matrix(X) on every path', 'the two columns are not taken from X by split_matrix on every path', construct='split_matrix')
     # the columns that are range-checked must be the caller's values themselves (views of X), not a sanitised copy
     from .c20 import get_alias
     sm = get_alias(ctx).summaries.get('copulas.bivariate.utils.split_matrix')
@@ -369,6 +371,10 @@ def d5(ctx, rep):
     prog = ctx.prog
     rep.rule('D5.writers', 'theta is only written by _compute_theta, by from_dict, or as a copy of an already validated theta; tau only by fit, from_dict, or as a copy')
     n = 0
+    from ..idioms import private_closure
+    fit_helpers = {f.qualname for f in private_closure(ctx, prog.method(BIV, 'fit', inherited=False))}
+    ct_helpers = {f.qualname for f in private_closure(ctx, prog.method(BIV, '_compute_theta', inherited=False))} - fit_helpers | \
+        {prog.method(BIV, '_compute_theta', inherited=False).qualname}
     for fn in prog.functions.values():
         for s in walk_no_nested(fn.node):
             if not isinstance(s, ast.Assign):
@@ -385,10 +391,10 @@ def d5(ctx, rep):
                     where = fn.short
                     ok = False
                     if t.attr == 'theta':
-                        ok = fn.name == '_compute_theta' or (fn.name == 'from_dict' and isinstance(v, ast.Subscript)) \
+                        ok = fn.name == '_compute_theta' or fn.qualname in ct_helpers or (fn.name == 'from_dict' and isinstance(v, ast.Subscript)) \
                             or _is_copy_of(fn, v, 'theta')
                     else:
-                        ok = (fn.name == 'fit' and fn.cls is not None and fn.cls.qualname == BIV) \
+                        ok = (fn.name == 'fit' and fn.cls is not None and fn.cls.qualname == BIV) or (fn.qualname in fit_helpers and fn.name != '_compute_theta') \
                             or (fn.name == 'from_dict' and isinstance(v, ast.Subscript)) or _is_copy_of(fn, v, 'tau')
                     rep.check('D5.writers', fn, s, ok, f'{t.attr} written by an allowed writer',
                               f'{where} writes {t.attr} directly: the value bypasses calibration/validation')
